@@ -158,3 +158,21 @@ MUTANTS += [
     {"id": "C07-insert-checked-sub-two", "prop": "C07", "expect": "U8-INDEX",
      "edits": [("src/surface.rs", "        if index > 0 {\n            iter.nth(index - 1);\n        }", "        if let Some(skip) = index.checked_sub(2) {\n            iter.nth(skip);\n        }")]},
 ]
+
+# the guarded access sits in a closure the function runs (bool::then receiver = the guard, Option combinators)
+_GM = "        if pos.row >= shape.height || pos.col >= shape.width {\n            None\n        } else {\n            self.data_mut().get_mut(shape.offset(pos))\n        }\n"
+_G = "        if pos.row >= shape.height || pos.col >= shape.width {\n            None\n        } else {\n            self.data().get(shape.offset(pos))\n        }\n"
+MUTANTS += [
+    {"id": "C07-benign-get-mut-then-flatten", "prop": "C07", "benign": True,
+     "edits": [("src/surface.rs", _GM, "        let inside = pos.row < shape.height && pos.col < shape.width;\n        inside\n            .then(|| self.data_mut().get_mut(shape.offset(pos)))\n            .flatten()\n")]},
+    {"id": "C07-benign-get-then-negated-receiver", "prop": "C07", "benign": True,
+     "edits": [("src/surface.rs", _G, "        let outside = shape.height <= pos.row || shape.width <= pos.col;\n        (!outside).then(|| self.data().get(shape.offset(pos)))?\n")]},
+    {"id": "C07-benign-get-guard-inside-closure", "prop": "C07", "benign": True,
+     "edits": [("src/surface.rs", _G, "        Some(shape).and_then(|sh| {\n            if pos.row >= shape.height || pos.col >= shape.width {\n                return None;\n            }\n            let _ = sh;\n            self.data().get(shape.offset(pos))\n        })\n")]},
+    {"id": "C07-get-mut-then-row-only", "prop": "C07", "expect": "U2-GET/surface::SurfaceMut::get_mut/missing-col-guard",
+     "edits": [("src/surface.rs", _GM, "        let inside = pos.row < shape.height;\n        inside\n            .then(|| self.data_mut().get_mut(shape.offset(pos)))\n            .flatten()\n")]},
+    {"id": "C07-get-then-receiver-inverted", "prop": "C07", "expect": "U2-GET/surface::Surface::get/missing-",
+     "edits": [("src/surface.rs", _G, "        let outside = shape.height <= pos.row || shape.width <= pos.col;\n        outside.then(|| self.data().get(shape.offset(pos)))?\n")]},
+    {"id": "C07-get-unwrap-or-else-unguarded", "prop": "C07", "expect": "U2-GET/surface::Surface::get/missing-",
+     "edits": [("src/surface.rs", _G, "        let inside = pos.row < shape.height && pos.col < shape.width;\n        inside.then_some(()).map_or_else(|| self.data().get(shape.offset(pos)), |_| None)\n")]},
+]
